@@ -110,3 +110,471 @@ Proof.
     rewrite R, andb_true_r. destruct (signbit v) eqn:S; [|rewrite andb_false_r; reflexivity].
     pose proof (signbit_true_nonpos v Nv S) as P. rewrite (fle_trans _ _ _ P Hz). reflexivity.
 Qed.
+
+(* ---- the boundaries increase with the bucket index, so a magnitude has one bucket ---- *)
+Lemma mod_succ n k : 0 < n ->
+  (k mod n < n - 1 -> (k + 1) mod n = k mod n + 1 /\ (k + 1) / n = k / n) /\
+  (k mod n = n - 1 -> (k + 1) mod n = 0 /\ (k + 1) / n = k / n + 1).
+Proof.
+  intros Hn. pose proof (Z.div_mod k n ltac:(lia)) as E. pose proof (Z.mod_pos_bound k n Hn) as B. split; intros H.
+  - split; [symmetry; apply (Z.mod_unique (k + 1) n (k / n)); lia|symmetry; apply (Z.div_unique (k + 1) n (k / n) (k mod n + 1)); lia].
+  - split; [symmetry; apply (Z.mod_unique (k + 1) n (k / n + 1)); lia|symmetry; apply (Z.div_unique (k + 1) n (k / n + 1) 0); lia].
+Qed.
+
+Lemma si_nth_lt : forall l i, strictly_increasing_b l = true -> (S i < length l)%nat ->
+  flt (nth i l fnan) (nth (S i) l fnan) = true.
+Proof.
+  induction l as [|a [|b r] IH]; intros i Hs Hi; [cbn in Hi; lia|cbn in Hi; lia|].
+  destruct i as [|i].
+  - cbn [nth]. rewrite si_cons2 in Hs. apply andb_prop in Hs. apply Hs.
+  - cbn [nth]. apply IH; [apply si_tail with a; exact Hs|cbn [length] in *; lia].
+Qed.
+
+Lemma exact_B_pos s k : -4 <= s <= 8 -> 0 < fst (exact_B s k).
+Proof.
+  intros Hs. destruct (Z_lt_le_dec 0 s).
+  - rewrite exact_B_table by lia. assert (Hn : 0 < 2 ^ s) by (apply Z.pow_pos_nonneg; lia).
+    apply (table_bound_val s (k mod 2 ^ s) (k / 2 ^ s + 1)); [lia|apply Z.mod_pos_bound; exact Hn].
+  - rewrite exact_B_shift by lia. cbn. lia.
+Qed.
+
+Lemma exact_B_step s k : -4 <= s <= 8 -> (dy_val (exact_B s k) < dy_val (exact_B s (k + 1)))%R.
+Proof.
+  intros Hs. destruct (Z_lt_le_dec 0 s) as [Hp|Hp].
+  - assert (Hs8 : 0 <= s <= 8) by lia. rewrite !exact_B_table by lia. set (n := 2 ^ s).
+    assert (Hn : 0 < n) by (apply Z.pow_pos_nonneg; lia).
+    pose proof (Z.mod_pos_bound k n Hn) as Bk. pose proof (Z.mod_pos_bound (k + 1) n Hn) as Bk1.
+    destruct (table_bound_val s (k mod n) (k / n + 1) Hs8 Bk) as [V0 _].
+    destruct (table_bound_val s ((k + 1) mod n) ((k + 1) / n + 1) Hs8 Bk1) as [V1 _].
+    rewrite V0, V1. destruct (mod_succ n k Hn) as [M1 M2].
+    destruct (row_entry_R s (k mod n) Hs8 Bk) as (F0 & _ & R0).
+    destruct (Z_lt_le_dec (k mod n) (n - 1)) as [Hj|Hj].
+    + destruct (M1 Hj) as [E1 E2]. rewrite E1, E2.
+      destruct (row_entry_R s (k mod n + 1) Hs8 ltac:(lia)) as (F1 & _ & _).
+      apply Rmult_lt_compat_r; [apply bpow_gt_0|]. apply flt_R; [exact F0|exact F1|].
+      unfold nth_f. replace (Z.to_nat (k mod n + 1)) with (S (Z.to_nat (k mod n))) by lia.
+      apply si_nth_lt; [apply bounds_sorted_lemma; exact Hs8|].
+      destruct (bounds_len_lemma s Hs8) as [Hl _]. fold n in Hl. lia.
+    + destruct (M2 ltac:(lia)) as [E1 E2]. rewrite E1, E2.
+      destruct (bounds_len_lemma s Hs8) as [_ H0]. rewrite H0, B2R_half.
+      replace (k / n + 1 + 1) with (k / n + 1 + 1)%Z by reflexivity. rewrite (bpow_plus radix2 (k / n + 1) 1).
+      change (bpow radix2 1) with 2%R. pose proof (bpow_gt_0 radix2 (k / n + 1)) as Bp.
+      apply Rlt_le_trans with (1 * bpow radix2 (k / n + 1))%R; [apply Rmult_lt_compat_r; lra|lra].
+  - rewrite !exact_B_shift by lia. rewrite !dy_val_pow2. apply bpow_lt.
+    assert (0 < 2 ^ (- s)) by (apply Z.pow_pos_nonneg; lia). nia.
+Qed.
+
+Lemma exact_B_mono s k : -4 <= s <= 8 -> forall d : nat, (dy_val (exact_B s k) <= dy_val (exact_B s (k + Z.of_nat d)))%R.
+Proof.
+  intros Hs. induction d as [|d IH]; [replace (k + Z.of_nat 0) with k by lia; lra|].
+  replace (k + Z.of_nat (S d)) with (k + Z.of_nat d + 1) by lia.
+  pose proof (exact_B_step s (k + Z.of_nat d) Hs). lra.
+Qed.
+
+Lemma exact_B_le s k k' : -4 <= s <= 8 -> k <= k' -> (dy_val (exact_B s k) <= dy_val (exact_B s k'))%R.
+Proof.
+  intros Hs H. replace k' with (k + Z.of_nat (Z.to_nat (k' - k))) by lia. apply exact_B_mono. exact Hs.
+Qed.
+
+(* for every non-NaN v <> 0: v lies in bucket k of the specification iff key_of says k *)
+Lemma in_bucket_key s k v : -4 <= s <= 8 -> is_nan v = false -> feq v pzero = false ->
+  in_bucket s k (exact_B s (k - 1)) (exact_B s k) (fabs v) = Z.eqb (key_of s v) k.
+Proof.
+  intros Hs Hn Hz. pose proof (key_law_lemma s v Hs Hn Hz) as KL. cbv zeta in KL.
+  destruct (Z.eqb_spec (key_of s v) k) as [<-|Hne]; [exact KL|].
+  destruct (in_bucket s k (exact_B s (k - 1)) (exact_B s k) (fabs v)) eqn:E; [exfalso|reflexivity].
+  unfold in_bucket in KL, E. destruct (is_inf (fabs v)).
+  - apply Z.eqb_eq in KL. apply Z.eqb_eq in E. lia.
+  - destruct (is_fin (fabs v) && negb (feq (fabs v) pzero)) eqn:Ef; [|discriminate].
+    apply andb_prop in KL. destruct KL as [L1 U1]. apply andb_prop in E. destruct E as [L2 U2].
+    assert (Pa : 0 < fst (dy_of (fabs v))).
+    { destruct v as [sg|sg| |sg m e Hb]; try discriminate; cbn in Ef; try discriminate. cbn. lia. }
+    set (k1 := key_of s v) in *.
+    apply dy_lt_iff in L1; [|apply exact_B_pos; exact Hs|exact Pa].
+    apply dy_lt_iff in L2; [|apply exact_B_pos; exact Hs|exact Pa].
+    apply dy_le_iff in U1; [|exact Pa|apply exact_B_pos; exact Hs].
+    apply dy_le_iff in U2; [|exact Pa|apply exact_B_pos; exact Hs].
+    destruct (Z_lt_le_dec k1 k).
+    + pose proof (exact_B_le s k1 (k - 1) Hs ltac:(lia)). lra.
+    + pose proof (exact_B_le s k (k1 - 1) Hs ltac:(lia)). lra.
+Qed.
+
+(* ---- the specification's wanted populations are the model's counts ---- *)
+Lemma want_zero_cnt G zt : is_nan zt = false -> want_zero G zt = cnt (goes_zero zt) G.
+Proof.
+  intros Nz. unfold want_zero, cnt. f_equal. apply filter_ext. intros v. symmetry. apply goes_zero_spec. exact Nz.
+Qed.
+
+Lemma want_bucket_pos G s zt k : -4 <= s <= 8 -> fle pzero zt = true ->
+  want_bucket G s zt false k = cnt (fun v => goes_pos zt v && Z.eqb (key_of s v) k) G.
+Proof.
+  intros Hs Hz. unfold want_bucket, cnt. f_equal. apply filter_ext. intros v.
+  rewrite (goes_pos_spec zt v Hz). destruct (negb (is_nan v) && negb (in_zero zt v) && Bool.eqb (signbit v) false) eqn:E; [|reflexivity].
+  cbn [andb]. rewrite <- (goes_pos_spec zt v Hz) in E. destruct (goes_pos_nonzero zt v Hz E) as [Nv Zv].
+  apply in_bucket_key; assumption.
+Qed.
+
+Lemma want_bucket_neg G s zt k : -4 <= s <= 8 -> fle pzero zt = true ->
+  want_bucket G s zt true k = cnt (fun v => goes_neg zt v && Z.eqb (key_of s v) k) G.
+Proof.
+  intros Hs Hz. unfold want_bucket, cnt. f_equal. apply filter_ext. intros v.
+  rewrite (goes_neg_spec zt v Hz). destruct (negb (is_nan v) && negb (in_zero zt v) && Bool.eqb (signbit v) true) eqn:E; [|reflexivity].
+  cbn [andb]. rewrite <- (goes_neg_spec zt v Hz) in E. destruct (goes_neg_nonzero zt v Hz E) as [Nv Zv].
+  apply in_bucket_key; assumption.
+Qed.
+
+Lemma keys_increasing_sorted : forall l lo, sorted_from l lo -> keys_increasing l = true.
+Proof.
+  induction l as [|[k c] r IH]; intros lo H; [reflexivity|]. destruct r as [|[k' c'] r']; [reflexivity|].
+  cbn [sorted_from] in H. destruct H as (H1 & H2 & H3).
+  change (keys_increasing ((k, c) :: (k', c') :: r')) with ((k <? k') && keys_increasing ((k', c') :: r')).
+  rewrite (IH (k + 1)); [|cbn [sorted_from]; split; assumption]. destruct (Z.ltb_spec k k'); [reflexivity|lia].
+Qed.
+
+Lemma side_ok_of_model G s zt (neg : bool) Q sp ds pops :
+  (forall k, want_bucket G s zt neg k = cnt (fun v => Q v && Z.eqb (key_of s v) k) G) ->
+  decode sp ds = Some pops ->
+  (forall k, m_get pops k = cnt (fun v => Q v && Z.eqb (key_of s v) k) G) ->
+  (forall e, In e pops -> 0 <= snd e) -> wf pops ->
+  side_ok G s zt neg pops = true.
+Proof.
+  intros Hw Hd Hg Hnn [lo Hs]. unfold side_ok. rewrite (keys_increasing_sorted pops lo Hs). cbn [andb].
+  apply forallb_forall. intros [k c] Hin. cbn [fst snd].
+  pose proof (Hnn _ Hin) as N. cbn [snd] in N. rewrite Hw, <- Hg, (m_get_in pops lo k c Hs Hin).
+  rewrite Z.eqb_refl. destruct (Z.leb_spec 0 c); [reflexivity|lia].
+Qed.
+
+(* out_ok2 (what native_accounting establishes for every Write) implies the specification *)
+Lemma out_ok_spec_lemma g G w : out_ok2 g G w ->
+  exists x, expo_of_wout w = Some x /\ accounting_check G x = true.
+Proof.
+  intros [[Oc Oz Os Op On] [Hr Hz]].
+  destruct Op as (pos & Dp & Gp & Np & Sp & Wp). destruct On as (neg & Dn & Gn & Nn & Sn & Wn).
+  assert (Nz : is_nan (w_zt w) = false) by (apply fle_nonnan in Hz; apply Hz).
+  unfold expo_of_wout. rewrite Dp, Dn. eexists. split; [reflexivity|].
+  unfold accounting_check. cbn [e_schema e_zt e_zc e_count e_sum e_pos e_neg].
+  rewrite (side_ok_of_model G (w_schema w) (w_zt w) false (goes_pos (w_zt w)) _ _ pos
+             (fun k => want_bucket_pos G _ _ k Hr Hz) Dp Gp Np Wp).
+  rewrite (side_ok_of_model G (w_schema w) (w_zt w) true (goes_neg (w_zt w)) _ _ neg
+             (fun k => want_bucket_neg G _ _ k Hr Hz) Dn Gn Nn Wn).
+  rewrite (want_zero_cnt G (w_zt w) Nz), Sp, Sn, Oz, Oc, Os.
+  pose proof (cnt_partition (w_zt w) G) as P. unfold nan_count. fold (cnt is_nan G).
+  unfold fbits_eq. rewrite !Z.eqb_refl.
+  destruct (Z.leb_spec (-4) (w_schema w)); [|lia]. destruct (Z.leb_spec (w_schema w) 8); [|lia].
+  destruct (Z.eqb_spec (cnt (goes_pos (w_zt w)) G + cnt (goes_neg (w_zt w)) G + cnt (goes_zero (w_zt w)) G + cnt is_nan G) (zlen G)); [reflexivity|lia].
+Qed.
+
+(* ---- native_accounting in the specification's terms ---- *)
+Definition spec_ok_out (p : wout * list f64) : Prop :=
+  exists x, expo_of_wout (fst p) = Some x /\ accounting_check (snd p) x = true.
+
+Lemma native_accounting_spec_lemma g ops : valid_config g ->
+  exists l b, run_ghost (new_hist g) [] ops = Some (l, b) /\ Forall spec_ok_out l.
+Proof.
+  intros Hv. destruct (native_accounting_lemma g ops Hv) as (l & b & E & O). exists l, b. split; [exact E|].
+  unfold outs_ok in O. eapply Forall_impl; [|exact O]. intros p Hp. apply (out_ok_spec_lemma g). exact Hp.
+Qed.
+
+Lemma native_accounting_nolimit_spec_lemma g ops : valid_config g -> g_max_buckets g = 0 ->
+  exists l, run_ghost (new_hist g) [] ops = Some (l, true) /\ Forall spec_ok_out l /\ run g ops = Some (map fst l).
+Proof.
+  intros Hv H0. destruct (native_accounting_nolimit_lemma g ops Hv H0) as (l & E & O & R). exists l.
+  split; [exact E|]. split; [|exact R].
+  unfold outs_ok in O. eapply Forall_impl; [|exact O]. intros p Hp. apply (out_ok_spec_lemma g). exact Hp.
+Qed.
+
+(* ---- the ghost G is always a suffix of the observations made so far (resets only drop a prefix) ---- *)
+Definition op_obs (o : op) : list f64 := match o with OObs v | OObsEx v _ => [v] | _ => [] end.
+Definition is_suffix (G seen : list f64) : Prop := exists pre, seen = pre ++ G.
+
+Lemma ghost_step_suffix h G o seen : is_suffix G seen -> is_suffix (ghost_step h G o) (seen ++ op_obs o).
+Proof.
+  intros [pre E]. subst seen. destruct o as [v|v orc| |d|]; cbn [ghost_step op_obs]; rewrite ?app_nil_r.
+  - destruct (observe_k h v) as [[h' []]|]; try (exists pre; rewrite app_assoc; reflexivity). exists (pre ++ G). reflexivity.
+  - destruct (observe_k h v) as [[h' []]|]; try (exists pre; rewrite app_assoc; reflexivity). exists (pre ++ G). reflexivity.
+  - exists pre. reflexivity.
+  - exists pre. reflexivity.
+  - destruct (h_sched h); [exists (pre ++ G); rewrite app_nil_r; reflexivity|exists pre; reflexivity].
+Qed.
+
+(* the observations made before each Write *)
+Fixpoint seen_at_writes (seen : list f64) (ops : list op) : list (list f64) :=
+  match ops with
+  | [] => []
+  | OWrite :: r => seen :: seen_at_writes seen r
+  | o :: r => seen_at_writes (seen ++ op_obs o) r
+  end.
+
+Lemma ghost_suffix_lemma : forall ops h G seen l b, is_suffix G seen -> run_ghost h G ops = Some (l, b) ->
+  Forall2 (fun p s => is_suffix (snd p) s) l (firstn (length l) (seen_at_writes seen ops)).
+Proof.
+  induction ops as [|o r IH]; intros h G seen l b Hs E.
+  - cbn in E. inversion E. constructor.
+  - cbn [run_ghost] in E. destruct (step h o) as [[h' [w|]]|] eqn:St; [| |discriminate].
+    + assert (o = OWrite) by (destruct o; cbn in St; try (destruct (observe h v); discriminate); try discriminate;
+                               [reflexivity|destruct (h_sched h); [destruct (timer_reset h)|]; discriminate]).
+      subst o. destruct (run_ghost h' G r) as [[l' b']|] eqn:E'; [|discriminate]. inversion E. subst.
+      cbn [seen_at_writes length firstn]. constructor; [exact Hs|apply (IH h' G seen l' b Hs E')].
+    + assert (No : o <> OWrite) by (intros ->; cbn in St; destruct (write h) as [[? ?]|]; discriminate).
+      destruct (step_exact h G o).
+      * pose proof (IH h' _ (seen ++ op_obs o) l b (ghost_step_suffix h G o seen Hs) E) as R.
+        destruct o; try contradiction; exact R.
+      * inversion E. constructor.
+Qed.
+
+(* ---- findSmallestKey ---- *)
+Lemma find_smallest_fold : forall (m : bmap) init,
+  let r := fold_left (fun res (p : Z * Z) => if Z.ltb (fst p) res then fst p else res) m init in
+  r <= init /\ (forall p, In p m -> r <= fst p) /\ (r = init \/ exists p, In p m /\ r = fst p).
+Proof.
+  induction m as [|[k c] m IH]; intros init; cbn [fold_left].
+  - split; [lia|]. split; [intros p []|left; reflexivity].
+  - cbn [fst]. destruct (Z.ltb_spec k init) as [Hlt|Hge].
+    + destruct (IH k) as (A & B & C). split; [lia|]. split.
+      * intros p [<-|Hp]; [exact A|apply B; exact Hp].
+      * right. destruct C as [C|[p [Hp C]]]; [exists (k, c); split; [left; reflexivity|exact C]|exists p; split; [right; exact Hp|exact C]].
+    + destruct (IH init) as (A & B & C). split; [exact A|]. split.
+      * intros p [<-|Hp]; [cbn [fst]; lia|apply B; exact Hp].
+      * destruct C as [C|[p [Hp C]]]; [left; exact C|right; exists p; split; [right; exact Hp|exact C]].
+Qed.
+
+(* findSmallestKey returns MaxInt32 or a key of the map, and nothing in the map is smaller *)
+Lemma smallest_key_lemma m :
+  (forall p, In p m -> find_smallest_key m <= fst p) /\
+  (find_smallest_key m = max_int32 \/ exists p, In p m /\ find_smallest_key m = fst p).
+Proof. destruct (find_smallest_fold m max_int32) as (_ & B & C). split; assumption. Qed.
+
+(* ---- pickSchema's switch: every non-NaN value of floor(log2(log2 factor)) gives a schema in [-4,8] ---- *)
+Lemma of_Z_m8_fields : match of_Z (-8) with B754_finite s m e _ => (s && (Z.pos m =? 2 ^ 52) && (e =? -49)) = true | _ => False end.
+Proof. vm_compute. reflexivity. Qed.
+Lemma of_Z_4_fields : match of_Z 4 with B754_finite s m e _ => (negb s && (Z.pos m =? 2 ^ 52) && (e =? -50)) = true | _ => False end.
+Proof. vm_compute. reflexivity. Qed.
+
+Lemma B2R_m8 : B2R (of_Z (-8)) = (-8)%R /\ is_fin (of_Z (-8)) = true.
+Proof.
+  pose proof of_Z_m8_fields as H. destruct (of_Z (-8)) as [| | |s m e Hb]; try contradiction.
+  apply andb_prop in H. destruct H as [H He]. apply andb_prop in H. destruct H as [Hs Hm].
+  destruct s; [|discriminate]. apply Z.eqb_eq in Hm. apply Z.eqb_eq in He. subst e. split; [|reflexivity].
+  unfold B2R, F2R, cond_Zopp. cbn [Fnum Fexp]. rewrite opp_IZR, Hm.
+  change (bpow radix2 (-49)) with (/ IZR (2 ^ 49))%R.
+  change (2 ^ 52) with 4503599627370496. change (2 ^ 49) with 562949953421312. lra.
+Qed.
+Lemma B2R_4 : B2R (of_Z 4) = 4%R /\ is_fin (of_Z 4) = true.
+Proof.
+  pose proof of_Z_4_fields as H. destruct (of_Z 4) as [| | |s m e Hb]; try contradiction.
+  apply andb_prop in H. destruct H as [H He]. apply andb_prop in H. destruct H as [Hs Hm].
+  destruct s; [discriminate|]. apply Z.eqb_eq in Hm. apply Z.eqb_eq in He. subst e. split; [|reflexivity].
+  unfold B2R, F2R, cond_Zopp. cbn [Fnum Fexp]. rewrite Hm.
+  change (bpow radix2 (-50)) with (/ IZR (2 ^ 50))%R.
+  change (2 ^ 52) with 4503599627370496. change (2 ^ 50) with 1125899906842624. lra.
+Qed.
+
+(* truncation toward zero never exceeds the magnitude *)
+Lemma trunc_mag s m e Hb :
+  let q := if Z.leb 0 e then Z.pos m * 2 ^ e else Z.pos m / 2 ^ (- e) in
+  0 <= q /\ (IZR q <= Rabs (B2R (B754_finite s m e Hb : f64)))%R.
+Proof.
+  intros q. assert (HR : Rabs (B2R (B754_finite s m e Hb : f64)) = (IZR (Z.pos m) * bpow radix2 e)%R).
+  { unfold B2R, F2R. cbn [Fnum Fexp]. rewrite Rabs_mult, (Rabs_pos_eq (bpow radix2 e)) by (apply bpow_ge_0).
+    f_equal. destruct s; cbn [cond_Zopp]; [rewrite opp_IZR, Rabs_Ropp|]; apply Rabs_pos_eq; apply IZR_le; lia. }
+  rewrite HR. subst q. destruct (Z.leb_spec 0 e) as [He|He].
+  - split; [apply Z.mul_nonneg_nonneg; [lia|apply Z.pow_nonneg; lia]|]. rewrite mult_IZR, IZR_pow2 by lia. lra.
+  - assert (Hp : 0 < 2 ^ (- e)) by (apply Z.pow_pos_nonneg; lia).
+    split; [apply Z.div_pos; lia|].
+    pose proof (Z.mul_div_le (Z.pos m) (2 ^ (- e)) Hp) as Hle.
+    apply IZR_le in Hle. rewrite mult_IZR, IZR_pow2 in Hle by lia.
+    pose proof (bpow_gt_0 radix2 (- e)) as B1. pose proof (bpow_gt_0 radix2 e) as B2.
+    assert (Hinv : (bpow radix2 (- e) * bpow radix2 e = 1)%R) by (rewrite <- bpow_plus; replace (- e + e) with 0 by lia; reflexivity).
+    assert (IZR (Z.pos m / 2 ^ (- e)) * (bpow radix2 (- e) * bpow radix2 e) <= IZR (Z.pos m) * bpow radix2 e)%R.
+    { rewrite <- Rmult_assoc. apply Rmult_le_compat_r; [lra|]. lra. }
+    rewrite Hinv in H. lra.
+Qed.
+
+Lemma schema_in_range_lemma fl : is_nan fl = false -> -4 <= pick_schema_of_floor fl <= 8.
+Proof.
+  intros Hn. unfold pick_schema_of_floor. destruct B2R_m8 as [V8 F8]. destruct B2R_4 as [V4 F4].
+  destruct (fle fl (of_Z (-8))) eqn:E1; [lia|]. unfold fge. destruct (fle (of_Z 4) fl) eqn:E2; [lia|].
+  assert (N8 : is_nan (of_Z (-8)) = false) by (apply fin_nonnan; exact F8).
+  assert (N4 : is_nan (of_Z 4) = false) by (apply fin_nonnan; exact F4).
+  apply (fle_false_iff _ _ Hn N8) in E1. apply (fle_false_iff _ _ N4 Hn) in E2.
+  destruct fl as [s|s| |s m e Hb]; try discriminate.
+  - cbn. lia.
+  - destruct s; [vm_compute in E1|vm_compute in E2]; discriminate.
+  - assert (Ff : is_fin (B754_finite s m e Hb : f64) = true) by reflexivity.
+    pose proof (flt_R _ _ F8 Ff E1) as R1. pose proof (flt_R _ _ Ff F4 E2) as R2. rewrite V8 in R1. rewrite V4 in R2.
+    destruct (trunc_mag s m e Hb) as [Q0 Q1]. unfold trunc_Z.
+    set (q := if 0 <=? e then Z.pos m * 2 ^ e else Z.pos m / 2 ^ (- e)) in *.
+    set (x := B2R (B754_finite s m e Hb : f64)) in *.
+    assert (Hq : (IZR q < 8)%R) by (unfold Rabs in Q1; destruct (Rcase_abs x); lra).
+    apply lt_IZR in Hq.
+    destruct s.
+    + lia.
+    + assert (Hx : (0 <= x)%R) by (unfold x, B2R, F2R; cbn [Fnum Fexp cond_Zopp]; apply Rmult_le_pos; [apply IZR_le; lia|apply bpow_ge_0]).
+      rewrite Rabs_pos_eq in Q1 by exact Hx. assert (Hq4 : (IZR q < 4)%R) by lra. apply lt_IZR in Hq4. lia.
+Qed.
+
+(* ====================================================================== *)
+(* exemplars stay sorted by value                                          *)
+(* ====================================================================== *)
+Definition vnn (l : list exemplar) : Prop := forall x, In x l -> is_nan (fst x) = false.
+
+Fixpoint ssorted (l : list exemplar) : Prop :=
+  match l with [] => True | a :: r => (forall x, In x r -> fle (fst a) (fst x) = true) /\ ssorted r end.
+
+Lemma ssorted_of_ex_sorted : forall l, ex_sorted l = true -> ssorted l.
+Proof.
+  induction l as [|a r IH]; intros H; [exact I|]. destruct r as [|b r']; [split; [intros x []|exact I]|].
+  change (ex_sorted (a :: b :: r')) with (fle (fst a) (fst b) && ex_sorted (b :: r')) in H.
+  apply andb_prop in H. destruct H as [H1 H2]. specialize (IH H2). split; [|exact IH].
+  intros x [<-|Hx]; [exact H1|]. apply fle_trans with (fst b); [exact H1|apply IH; exact Hx].
+Qed.
+
+Lemma ex_sorted_of_ssorted : forall l, ssorted l -> ex_sorted l = true.
+Proof.
+  induction l as [|a r IH]; intros H; [reflexivity|]. destruct r as [|b r']; [reflexivity|].
+  destruct H as [H1 H2]. change (ex_sorted (a :: b :: r')) with (fle (fst a) (fst b) && ex_sorted (b :: r')).
+  rewrite (H1 b (or_introl eq_refl)), (IH H2). reflexivity.
+Qed.
+
+Lemma ssorted_app a b : ssorted (a ++ b) <->
+  ssorted a /\ ssorted b /\ (forall x y, In x a -> In y b -> fle (fst x) (fst y) = true).
+Proof.
+  induction a as [|h a IH]; cbn [app ssorted].
+  - split; [intros H; repeat split; [exact H|intros x y []]|intros (_ & H & _); exact H].
+  - rewrite IH. split.
+    + intros (H1 & H2 & H3 & H4). repeat split; try assumption.
+      * intros x Hx. apply H1. apply in_or_app. left. exact Hx.
+      * intros x y [<-|Hx] Hy; [apply H1; apply in_or_app; right; exact Hy|apply H4; assumption].
+    + intros ((H1 & H2) & H3 & H4). repeat split; try assumption.
+      * intros x Hx. apply in_app_or in Hx. destruct Hx as [Hx|Hx]; [apply H1; exact Hx|apply H4; [left; reflexivity|exact Hx]].
+      * intros x y Hx Hy. apply H4; [right; exact Hx|exact Hy].
+Qed.
+
+(* subsequences *)
+Inductive subl : list exemplar -> list exemplar -> Prop :=
+| subl_nil : subl [] []
+| subl_both x a b : subl a b -> subl (x :: a) (x :: b)
+| subl_skip x a b : subl a b -> subl a (x :: b).
+
+Lemma subl_refl : forall l, subl l l. Proof. induction l; constructor; assumption. Qed.
+Lemma subl_in a b : subl a b -> forall x, In x a -> In x b.
+Proof. induction 1; intros y Hy; [destruct Hy|destruct Hy as [<-|Hy]; [left; reflexivity|right; auto]|right; auto]. Qed.
+Lemma subl_app a a' b b' : subl a a' -> subl b b' -> subl (a ++ b) (a' ++ b').
+Proof. induction 1; intros Hb; cbn [app]; [exact Hb|constructor; auto|constructor; auto]. Qed.
+Lemma subl_sorted a b : subl a b -> ssorted b -> ssorted a.
+Proof.
+  induction 1 as [|x a b Hs IH|x a b Hs IH]; intros H; [exact I| |].
+  - destruct H as [H1 H2]. split; [intros y Hy; apply H1; apply (subl_in a b Hs); exact Hy|apply IH; exact H2].
+  - destruct H as [_ H2]. apply IH. exact H2.
+Qed.
+Lemma subl_skipn : forall n l, subl (skipn n l) l.
+Proof. induction n as [|n IH]; intros l; [apply subl_refl|]. destruct l as [|x l]; [constructor|]. cbn. constructor. apply IH. Qed.
+Lemma subl_delete : forall r X, subl (firstn r X ++ skipn (S r) X) X.
+Proof.
+  induction r as [|r IH]; intros X.
+  - destruct X as [|x X]; [constructor|]. cbn. constructor. apply subl_refl.
+  - destruct X as [|x X]; [constructor|]. cbn [firstn skipn app]. constructor. apply IH.
+Qed.
+Lemma skipn_add {A} : forall a b (l : list A), skipn (a + b) l = skipn a (skipn b l).
+Proof.
+  intros a b. revert a. induction b as [|b IH]; intros a l; [rewrite Nat.add_0_r; reflexivity|].
+  destruct l as [|x l]; [rewrite !skipn_nil; reflexivity|]. replace (a + S b)%nat with (S (a + b)) by lia. cbn [skipn]. apply IH.
+Qed.
+
+(* first_idx splits the list at the first element satisfying p *)
+Lemma first_idx_split p : forall l i0,
+  let n := Z.to_nat (first_idx p l i0 - i0) in
+  (forall x, In x (firstn n l) -> p x = false) /\ (forall y r, skipn n l = y :: r -> p y = true).
+Proof.
+  induction l as [|x l IH]; intros i0; cbn [first_idx].
+  - replace (Z.to_nat (i0 - i0)) with 0%nat by lia. split; [intros y []|intros y r E; discriminate].
+  - destruct (p x) eqn:Px.
+    + replace (Z.to_nat (i0 - i0)) with 0%nat by lia. split; [intros y []|]. intros y r E. inversion E. subst. exact Px.
+    + pose proof (first_idx_range p l (i0 + 1)) as R.
+      replace (Z.to_nat (first_idx p l (i0 + 1) - i0)) with (S (Z.to_nat (first_idx p l (i0 + 1) - (i0 + 1)))) by lia.
+      destruct (IH (i0 + 1)) as [A B]. cbn [firstn skipn]. split; [|exact B].
+      intros y [<-|Hy]; [exact Px|apply A; exact Hy].
+Qed.
+
+Lemma insert_sorted (l : list exemplar) (e : exemplar) (n : nat) : ssorted l ->
+  (forall x, In x (firstn n l) -> fle (fst x) (fst e) = true) ->
+  (forall y, In y (skipn n l) -> fle (fst e) (fst y) = true) ->
+  ssorted (firstn n l ++ [e] ++ skipn n l).
+Proof.
+  intros Hs Ha Hb. rewrite <- (firstn_skipn n l) in Hs. apply ssorted_app in Hs. destruct Hs as (S1 & S2 & S3).
+  apply ssorted_app. split; [exact S1|]. split.
+  - cbn [app ssorted]. split; [exact Hb|exact S2].
+  - intros x y Hx [<-|Hy]; [apply Ha; exact Hx|apply S3; assumption].
+Qed.
+
+(* the insertion point computed by addExemplar keeps the order, with < (list not full) or <= (full) *)
+Lemma insertion_point_ok (strict : bool) (l : list exemplar) (e : exemplar) : ssorted l -> vnn l -> is_nan (fst e) = false ->
+  let p := fun x : exemplar => if strict then flt (fst e) (fst x) else fle (fst e) (fst x) in
+  let n := Z.to_nat (first_idx p l 0) in
+  (forall x, In x (firstn n l) -> fle (fst x) (fst e) = true) /\
+  (forall y, In y (skipn n l) -> fle (fst e) (fst y) = true).
+Proof.
+  intros Hs Hv He p n. destruct (first_idx_split p l 0) as [A B]. replace (first_idx p l 0 - 0) with (first_idx p l 0) in * by lia.
+  fold n in A, B. split.
+  - intros x Hx. specialize (A x Hx). assert (Nx : is_nan (fst x) = false) by (apply Hv; apply (in_firstn x n l Hx)).
+    unfold p in A. destruct strict.
+    + destruct (fle_total (fst x) (fst e) Nx He) as [H|H]; [exact H|congruence].
+    + apply (fle_false_iff _ _ He Nx) in A. apply flt_fle. exact A.
+  - intros y Hy. destruct (skipn n l) as [|y0 r] eqn:E; [destruct Hy|].
+    assert (P0 : fle (fst e) (fst y0) = true).
+    { specialize (B y0 r eq_refl). unfold p in B. destruct strict; [apply flt_fle|]; exact B. }
+    destruct Hy as [<-|Hy]; [exact P0|].
+    rewrite <- (firstn_skipn n l) in Hs. apply ssorted_app in Hs. destruct Hs as (_ & S2 & _). rewrite E in S2.
+    destruct S2 as [S2 _]. apply fle_trans with (fst y0); [exact P0|apply S2; exact Hy].
+Qed.
+
+Lemma replace_ex_sorted (l : list exemplar) r n (e : exemplar) : 0 <= r < zlen l -> 0 <= n <= zlen l ->
+  ssorted (take n l ++ [e] ++ drop n l) -> ssorted (replace_ex l r n e).
+Proof.
+  intros Hr Hn Hs. unfold replace_ex, take, drop in *. unfold zlen in *.
+  destruct (Z.eqb_spec r n) as [->|Hne].
+  - assert (S1 : subl (skipn (Z.to_nat (n + 1)) l) (skipn (Z.to_nat n) l)).
+    { replace (Z.to_nat (n + 1)) with (1 + Z.to_nat n)%nat by lia. rewrite skipn_add. apply subl_skipn. }
+    apply (subl_sorted _ (firstn (Z.to_nat n) l ++ [e] ++ skipn (Z.to_nat n) l)); [|exact Hs].
+    apply subl_app; [apply subl_refl|]. apply subl_app; [apply subl_refl|exact S1].
+  - destruct (Z.ltb_spec r n) as [Hlt|Hge].
+    + assert (S1 : subl (firstn (Z.to_nat r) l ++ skipn (Z.to_nat (r + 1)) (firstn (Z.to_nat n) l)) (firstn (Z.to_nat n) l)).
+      { replace (firstn (Z.to_nat r) l) with (firstn (Z.to_nat r) (firstn (Z.to_nat n) l))
+          by (rewrite firstn_firstn; f_equal; lia).
+        replace (Z.to_nat (r + 1)) with (S (Z.to_nat r)) by lia. apply subl_delete. }
+      rewrite app_assoc.
+      apply (subl_sorted _ (firstn (Z.to_nat n) l ++ [e] ++ skipn (Z.to_nat n) l)); [|exact Hs].
+      apply subl_app; [exact S1|apply subl_refl].
+    + assert (S1 : subl (skipn (Z.to_nat n) (firstn (Z.to_nat r) l) ++ skipn (Z.to_nat (r + 1)) l) (skipn (Z.to_nat n) l)).
+      { rewrite skipn_firstn_comm.
+        replace (Z.to_nat (r + 1)) with (S (Z.to_nat r - Z.to_nat n) + Z.to_nat n)%nat by lia. rewrite skipn_add.
+        apply subl_delete. }
+      apply (subl_sorted _ (firstn (Z.to_nat n) l ++ [e] ++ skipn (Z.to_nat n) l)); [|exact Hs].
+      apply subl_app; [apply subl_refl|]. apply subl_app; [apply subl_refl|exact S1].
+Qed.
+
+(* exemplars_sorted: for every oracle value and every TTL, inserting a non-NaN exemplar into a
+   value-sorted list of non-NaN exemplars leaves it value-sorted *)
+Lemma exemplars_sorted_lemma g l e o : ex_sorted l = true -> vnn l -> is_nan (fst e) = false ->
+  ex_sorted (add_exemplar g l e o) = true.
+Proof.
+  intros Hs Hv He. apply ssorted_of_ex_sorted in Hs. apply ex_sorted_of_ssorted.
+  unfold add_exemplar. destruct (ex_disabled g); [exact Hs|].
+  destruct (zlen l <? ex_cap g).
+  - destruct (insertion_point_ok true l e Hs Hv He) as [A B]. cbv zeta in A, B.
+    unfold take, drop. apply insert_sorted; assumption.
+  - destruct (Z.eqb_spec (zlen l) 1); [split; [intros x []|exact I]|].
+    pose proof (oldest_idx_range l 0 0 (-1) (or_introl eq_refl) ltac:(lia)) as O. cbv zeta in O.
+    destruct (oldest_idx l 0 0 (-1)) as [ot otIdx]. cbn [snd] in O.
+    pose proof (first_idx_range (fun x => fle (fst e) (fst x)) l 0) as R.
+    pose proof (zlen_nonneg l) as L0.
+    destruct (insertion_point_ok false l e Hs Hv He) as [A B]. cbv zeta in A, B.
+    pose proof (insert_sorted l e _ Hs A B) as Hins.
+    destruct (Z.eq_dec (zlen l) 0) as [E0|E0].
+    + assert (l = []) by (destruct l; [reflexivity|unfold zlen in E0; cbn in E0; lia]). subst l.
+      unfold replace_ex. cbn. destruct (_ && _); cbn; repeat split; intros x [].
+    + apply replace_ex_sorted; [|lia|exact Hins].
+      destruct (negb (otIdx =? -1) && (ex_ttl g <? snd e - ot)).
+      * destruct O as [(_ & -> & _)|O]; [unfold zlen in E0; cbn in E0; lia|lia].
+      * apply choose_ridx_range; lia.
+Qed.
